@@ -11,8 +11,9 @@ from engine.index import Repo
 def main():
     names = sys.argv[1:] or list(transforms.ALL)
     for t in names:
-        wt = tempfile.mkdtemp(prefix="trcheck_")
-        os.rmdir(wt)
+        wt = os.environ.get("TRCHECK_WT") or tempfile.mkdtemp(prefix="trcheck_")    # (a demo may insist on its author's path)
+        if os.path.isdir(wt):
+            os.rmdir(wt)
         subprocess.run(["git", "-C", "/repo", "worktree", "add", "-q", "--detach", wt, "HEAD"], check=True)
         try:
             demo = None
